@@ -105,7 +105,8 @@ CLAIMED.update({
             _bsr("with enable/disable/other/custom @-commands (isStreaming nondeterministic) z3 shows: forwarded unchanged while "
                  "disabled; a mid-episode disable re-synchronises the printer; after re-enabling the filter's decision equals the "
                  "oracle's from the true position; non-matching or streaming commands change nothing."),
-            PIPE_NOTE + "templates of 3-4 steps quick, 5 thorough; default patterns plus an unanchored custom pair; relative-exit known finding assumed away."),
+            PIPE_NOTE + "templates of 3-4 steps quick, 5 thorough; default patterns plus an unanchored custom pair; relative-exit known finding "
+            "assumed away; inductive step from the three state classes disabled / enabled-outside / enabled-inside (any program length)."),
 })
 
 CLAIMED.update({
